@@ -21,7 +21,8 @@ from .. import genops
 from . import c01, c02
 
 D1, D2, S1, S2, A1, C1, P1, T1, T2 = 0, 1, 4, 5, 12, 16, 24, 32, 33
-NAMES = {0: "d1", 1: "d2", 4: "s1", 5: "s2", 12: "a1", 16: "c1", 24: "p1", 32: "t1", 33: "t2"}
+NAMES = {0: "d1", 1: "d2", 2: "d3", 3: "d4", 4: "s1", 5: "s2", 6: "s3", 7: "s4", 8: "s5", 9: "s6", 10: "s7", 11: "s8",
+         12: "a1", 16: "c1", 24: "p1", 32: "t1", 33: "t2"}
 
 
 def copyop(w):
@@ -66,7 +67,7 @@ def make_fn(k, tpl, w, o1, o2, o3, mult, seed, opinfo, rng, ptype=0, const_n=0, 
     if D2 in slots and D1 not in slots: slots.append(D1)
     if S2 in slots and S1 not in slots: slots.append(S1)
     if T2 in slots and T1 not in slots: slots.append(T1)
-    order = [D1, D2, S1, S2, A1, C1, P1, T1, T2]
+    order = [0, 1, 2, 3, 4, 5, 6, 7, 8, 9, 10, 11, A1, C1, P1, T1, T2]
     f.vars = []
     scalar = any("SCALAR" in opinfo[op]["flags"] for op, _, _ in f.insns)
     for s in order:
@@ -220,6 +221,12 @@ def run(ctx):
              ("iparam2d", 2, [("addw", [D1], [S1, P1])], 0, 0, 9), ("constn", 2, [("addw", [D1], [S1, S2])], 0, 8, 4),
              ("acc2d", 2, [("copyw", [T1], [S1]), ("accw", [A1], [T1]), ("copyw", [D1], [T1])], 0, 0, 11),
              ("fparam2d", 4, [("andf", [D1], [S1, P1])], 1, 0, 13)]
+    # four destinations and eight sources: the pointers occupy every callee-saved general register (C10 checks that
+    # they are preserved; here the values computed through them are checked)
+    many = [("addw", [0], [4, 5]), ("xorw", [1], [6, 7]), ("subw", [2], [8, 9]), ("maxsw", [3], [10, 11])]
+    extra.append(("manyarr", 2, many, 0, 0, 20))
+    extra.append(("manyarr2d", 2, many, 0, 0, 21))
+    extra.append(("manyarr4", 4, [("addl", [0], [4, 5]), ("xorl", [1], [6, 7]), ("subl", [2], [8, 9]), ("mulll", [3], [10, 11])], 0, 0, 23))
     # constant-n programs (the loop is laid out for exactly n elements): lengths around the vector widths
     for cn, w, op in ((1, 1, "addb"), (3, 2, "subw"), (7, 1, "avgub"), (16, 1, "addusb"), (17, 2, "mullw"), (31, 4, "addl"),
                       (33, 1, "xorb"), (64, 2, "addssw"), (65, 1, "maxub"), (100, 4, "subl"), (128, 1, "addb"), (255, 1, "subb")):
@@ -306,7 +313,13 @@ def run(ctx):
         label, tf = a
         rows = read_ndjson(tf)
         bad, g = [], 0
-        r = T.validate("Trace_Prog", "Trace_Prog.cfg", tf, timeout=3000, heap="6g")
+        try:
+            r = T.validate("Trace_Prog", "Trace_Prog.cfg", tf, timeout=3000, heap="6g")
+        except MachineryError as ex:
+            # the events themselves are malformed (fields missing, values out of range): a called function damaged the
+            # driver's own state (registers or memory it relies on) - the call did not work end to end
+            first = next((x for x in rows if x.get("e") == "Prog"), {})
+            return label, [dict(e="Corrupt", fn=first.get("fn"), tpl="?", insns=[], why=str(ex)[-300:])], 0, [0, 0], 0, []
         st = [r["res"]["distinct"], r["res"]["generated"]]
         elems = 0
         while True:
@@ -343,6 +356,10 @@ def run(ctx):
             n += 1
             f = byname.get(ev.get("fn"))
             rp = ctx.save_replay("prog_%d.ndjson" % n, json.dumps(ev) + "\n")
+            if ev.get("e") == "Corrupt":
+                ctx.violation("C07: the events recorded in mode %s are malformed - a generated function damaged the state of "
+                              "the driver that called it (callee-saved registers or memory): %s" % (label, ev.get("why", "")[-200:]), rp)
+                continue
             ctx.violation("C07: %s (%s; %s) called through its prototype in mode %s computes other bytes than the program "
                           "semantics (n=%s m=%s off=%s fence=%s)" % (ev.get("fn"), ev.get("tpl"), json.dumps(ev.get("insns")),
                                                                       label, ev.get("n"), ev.get("m"), ev.get("off"), ev.get("fence")), rp)
